@@ -121,6 +121,16 @@ let rec nth n l default =
             | [] -> default
             | _ :: t -> nth m t default)
 
+(** val nth_error : 'a1 list -> nat -> 'a1 option **)
+
+let rec nth_error l = function
+| O -> (match l with
+        | [] -> None
+        | x :: _ -> Some x)
+| S n3 -> (match l with
+           | [] -> None
+           | _ :: l0 -> nth_error l0 n3)
+
 (** val last : 'a1 list -> 'a1 -> 'a1 **)
 
 let rec last l d =
@@ -1600,14 +1610,14 @@ let rec coinc_single_loop o0 tau p1 f1 p2 f2 =
       | [] -> false
       | y :: _ -> o0.nltb (nabs o0 (o0.nsub x y)) (tau c1 (ctx_of q2 g2))
     in
-    let step =
+    let step0 =
       match g2 with
       | [] -> false
       | _ :: _ -> (match q2 with
                    | [] -> true
                    | y :: _ -> o0.nltb y x)
     in
-    if step
+    if step0
     then (match g2 with
           | [] -> []
           | z0 :: g2' ->
@@ -2960,6 +2970,123 @@ let rec hist_counts o0 edges xs =
        in
        (nofnat o0 (length (filter inbin xs))) :: (hist_counts o0 es' xs))
 
+(** val upd : 'a1 list -> nat -> 'a1 -> 'a1 list **)
+
+let rec upd l i a =
+  match l with
+  | [] -> []
+  | b :: r -> (match i with
+               | O -> a :: r
+               | S k -> b :: (upd r k a))
+
+type obj = { rx : nat; ry : nat }
+
+type 'f op =
+| OAdd of nat * nat
+| OMul of nat * 'f
+| OCopy of nat
+| ONew of 'f list * 'f list
+
+type 'f store = 'f list option list
+
+type 'f state = { st_store : 'f store; st_objs : obj list; st_errs : err list }
+
+(** val empty_state : 'a1 state **)
+
+let empty_state =
+  { st_store = []; st_objs = []; st_errs = [] }
+
+(** val alloc : 'a1 store -> 'a1 list -> 'a1 store * nat **)
+
+let alloc st a =
+  ((app st ((Some a) :: [])), (length st))
+
+(** val sread : 'a1 store -> nat -> 'a1 list option **)
+
+let sread st r =
+  match nth_error st r with
+  | Some o0 -> o0
+  | None -> None
+
+(** val swrite : 'a1 store -> nat -> 'a1 list -> 'a1 store **)
+
+let swrite st r a =
+  upd st r (Some a)
+
+(** val read_obj : 'a1 store -> obj -> 'a1 pwc option **)
+
+let read_obj st ob =
+  match sread st ob.rx with
+  | Some xs ->
+    (match sread st ob.ry with
+     | Some ys -> Some (xs, ys)
+     | None -> None)
+  | None -> None
+
+(** val denote : 'a1 state -> nat -> 'a1 pwc option **)
+
+let denote s k =
+  match nth_error s.st_objs k with
+  | Some ob -> read_obj s.st_store ob
+  | None -> None
+
+(** val fail : 'a1 state -> err -> 'a1 state **)
+
+let fail s e =
+  { st_store = s.st_store; st_objs = s.st_objs; st_errs =
+    (app s.st_errs (e :: [])) }
+
+(** val alloc2 : 'a1 store -> 'a1 list -> 'a1 list -> 'a1 store * obj **)
+
+let alloc2 st xs ys =
+  let (st1, r1) = alloc st xs in
+  let (st2, r2) = alloc st1 ys in (st2, { rx = r1; ry = r2 })
+
+(** val new_obj : 'a1 state -> 'a1 list -> 'a1 list -> 'a1 state **)
+
+let new_obj s xs ys =
+  let (st, ob) = alloc2 s.st_store xs ys in
+  { st_store = st; st_objs = (app s.st_objs (ob :: [])); st_errs = s.st_errs }
+
+(** val step : 'a1 numOps -> 'a1 op -> 'a1 state -> 'a1 state **)
+
+let step o0 p s =
+  match p with
+  | OAdd (i, j) ->
+    (match denote s i with
+     | Some f ->
+       (match denote s j with
+        | Some g ->
+          (match pwc_add o0 f g with
+           | Ok a ->
+             let (xs, ys) = a in
+             let (st, ob) = alloc2 s.st_store xs ys in
+             { st_store = st; st_objs = (upd s.st_objs i ob); st_errs =
+             s.st_errs }
+           | Err e -> fail s e)
+        | None -> fail s BadArgs)
+     | None -> fail s BadArgs)
+  | OMul (i, c) ->
+    (match nth_error s.st_objs i with
+     | Some ob ->
+       (match sread s.st_store ob.ry with
+        | Some ys ->
+          { st_store =
+            (swrite s.st_store ob.ry (map (fun y -> o0.nmul y c) ys));
+            st_objs = s.st_objs; st_errs = s.st_errs }
+        | None -> fail s BadArgs)
+     | None -> fail s BadArgs)
+  | OCopy i ->
+    (match denote s i with
+     | Some p0 -> let (xs, ys) = p0 in new_obj s xs ys
+     | None -> fail s BadArgs)
+  | ONew (xs, ys) -> new_obj s xs ys
+
+(** val run : 'a1 numOps -> 'a1 op list -> 'a1 state -> 'a1 state **)
+
+let run o0 ops s =
+  fold_left (fun s0 p -> step o0 p s0) ops s
+
 type val0 =
 | VQ of q
 | VN of nat
@@ -3221,6 +3348,210 @@ let encMatrix m =
 let encPairQ p =
   VL ((VQ (fst p)) :: ((VQ (snd p)) :: []))
 
+(** val asStrs : val0 -> nat list list option **)
+
+let asStrs = function
+| VL l -> all_some (map asNs l)
+| _ -> None
+
+(** val asStrsL : val0 -> nat list list list option **)
+
+let asStrsL = function
+| VL l -> all_some (map asStrs l)
+| _ -> None
+
+(** val encStr : nat list -> val0 **)
+
+let encStr s =
+  VL (map (fun x -> VN x) s)
+
+(** val asPwc : val0 -> (q list * q list) option **)
+
+let asPwc = function
+| VL l ->
+  (match l with
+   | [] -> None
+   | x :: l0 ->
+     (match l0 with
+      | [] -> None
+      | y :: l1 ->
+        (match l1 with
+         | [] ->
+           (match asQs x with
+            | Some a ->
+              (match asQs y with
+               | Some b -> Some (a, b)
+               | None -> None)
+            | None -> None)
+         | _ :: _ -> None)))
+| _ -> None
+
+(** val asPwcs : val0 -> (q list * q list) list option **)
+
+let asPwcs = function
+| VL l -> all_some (map asPwc l)
+| _ -> None
+
+(** val asOp : val0 -> q op option **)
+
+let asOp = function
+| VL l ->
+  (match l with
+   | [] -> None
+   | v0 :: l0 ->
+     (match v0 with
+      | VN n ->
+        (match n with
+         | O ->
+           (match l0 with
+            | [] -> None
+            | v1 :: l1 ->
+              (match v1 with
+               | VN i ->
+                 (match l1 with
+                  | [] -> None
+                  | v2 :: l2 ->
+                    (match v2 with
+                     | VN j ->
+                       (match l2 with
+                        | [] -> Some (OAdd (i, j))
+                        | _ :: _ -> None)
+                     | _ -> None))
+               | _ -> None))
+         | S n3 ->
+           (match n3 with
+            | O ->
+              (match l0 with
+               | [] -> None
+               | v1 :: l1 ->
+                 (match v1 with
+                  | VN i ->
+                    (match l1 with
+                     | [] -> None
+                     | v2 :: l2 ->
+                       (match v2 with
+                        | VQ c ->
+                          (match l2 with
+                           | [] -> Some (OMul (i, c))
+                           | _ :: _ -> None)
+                        | _ -> None))
+                  | _ -> None))
+            | S n5 ->
+              (match n5 with
+               | O ->
+                 (match l0 with
+                  | [] -> None
+                  | v1 :: l1 ->
+                    (match v1 with
+                     | VN i ->
+                       (match l1 with
+                        | [] -> Some (OCopy i)
+                        | _ :: _ -> None)
+                     | _ -> None))
+               | S _ -> None)))
+      | _ -> None))
+| _ -> None
+
+(** val asOps : val0 -> q op list option **)
+
+let asOps = function
+| VL l -> all_some (map asOp l)
+| _ -> None
+
+(** val is_empty : 'a1 list -> bool **)
+
+let is_empty = function
+| [] -> true
+| _ :: _ -> false
+
+(** val starts_with : nat list -> nat list -> bool **)
+
+let rec starts_with p s =
+  match p with
+  | [] -> true
+  | a :: p' ->
+    (match s with
+     | [] -> false
+     | b :: s' -> (&&) (Nat.eqb a b) (starts_with p' s'))
+
+(** val join : nat list -> nat list list -> nat list **)
+
+let rec join sep = function
+| [] -> []
+| t :: r -> (match r with
+             | [] -> t
+             | _ :: _ -> app t (app sep (join sep r)))
+
+(** val split_go :
+    nat list -> nat -> nat list -> nat list -> nat list list **)
+
+let rec split_go sep skip cur s = match s with
+| [] -> (rev cur) :: []
+| c :: r ->
+  (match skip with
+   | O ->
+     if starts_with sep s
+     then (rev cur) :: (split_go sep (sub (length sep) (S O)) [] r)
+     else split_go sep O (c :: cur) r
+   | S k -> split_go sep k cur r)
+
+(** val split : nat list -> nat list -> nat list list **)
+
+let split sep s = match s with
+| [] -> []
+| _ :: _ -> (match sep with
+             | [] -> s :: []
+             | _ :: _ -> split_go sep O [] s)
+
+(** val save_lines : nat list -> nat list list list -> nat list list **)
+
+let save_lines sep trains =
+  map (join sep) trains
+
+(** val load_line :
+    nat list -> nat list -> bool -> nat list -> nat list list list **)
+
+let load_line sep comment ignore_empty line =
+  if starts_with comment line
+  then []
+  else if negb (is_empty line)
+       then (split sep line) :: []
+       else if ignore_empty then [] else [] :: []
+
+(** val load_lines :
+    nat list -> nat list -> bool -> nat list list -> nat list list list **)
+
+let load_lines sep comment ignore_empty lines =
+  flat_map (load_line sep comment ignore_empty) lines
+
+(** val psth_edges : 'a1 numOps -> 'a1 -> 'a1 -> nat -> 'a1 list **)
+
+let psth_edges o0 ts te n =
+  let step0 = o0.ndiv (o0.nsub te ts) (nofnat o0 n) in
+  map (fun k -> o0.nadd ts (o0.nmul (nofnat o0 k) step0)) (seq O (S n))
+
+(** val psth_counts :
+    'a1 numOps -> 'a1 -> 'a1 -> nat -> 'a1 list -> 'a1 list **)
+
+let psth_counts o0 ts te n xs =
+  hist_counts o0 (psth_edges o0 ts te n) xs
+
+(** val cumsum : 'a1 numOps -> 'a1 -> 'a1 list -> 'a1 list **)
+
+let rec cumsum o0 acc = function
+| [] -> []
+| d :: r -> let a = o0.nadd acc d in a :: (cumsum o0 a r)
+
+(** val poisson_cumsums : 'a1 numOps -> 'a1 -> 'a1 list -> 'a1 list **)
+
+let poisson_cumsums o0 t0 draws =
+  map (fun c -> o0.nadd t0 c) (cumsum o0 o0.n0 draws)
+
+(** val poisson_spikes : 'a1 numOps -> 'a1 -> 'a1 -> 'a1 list -> 'a1 list **)
+
+let poisson_spikes o0 t0 t1 draws =
+  filter (fun x -> o0.nltb x t1) (poisson_cumsums o0 t0 draws)
+
 (** val o : q numOps **)
 
 let o =
@@ -3248,8 +3579,8 @@ let gtq = function
 let dispatch id args =
   match id with
   | O -> bad
-  | S n ->
-    (match n with
+  | S n3 ->
+    (match n3 with
      | O ->
        (match args with
         | [] -> bad
@@ -3296,8 +3627,8 @@ let dispatch id args =
                              | _ -> bad))
                        | _ -> bad))))
            | _ -> bad))
-     | S n3 ->
-       (match n3 with
+     | S n5 ->
+       (match n5 with
         | O ->
           (match args with
            | [] -> bad
@@ -3352,8 +3683,8 @@ let dispatch id args =
                                 | _ -> bad))
                           | _ -> bad))))
               | _ -> bad))
-        | S n5 ->
-          (match n5 with
+        | S n6 ->
+          (match n6 with
            | O ->
              (match args with
               | [] -> bad
@@ -3383,8 +3714,8 @@ let dispatch id args =
                                 | _ -> bad))
                           | _ -> bad)))
                  | _ -> bad))
-           | S n6 ->
-             (match n6 with
+           | S n7 ->
+             (match n7 with
               | O ->
                 (match args with
                  | [] -> bad
@@ -3428,8 +3759,8 @@ let dispatch id args =
                                 | _ -> bad))
                           | _ -> bad))
                     | _ -> bad))
-              | S n7 ->
-                (match n7 with
+              | S n8 ->
+                (match n8 with
                  | O ->
                    (match args with
                     | [] -> bad
@@ -3465,8 +3796,8 @@ let dispatch id args =
                                          | _ -> bad))
                                    | _ -> bad))))
                        | _ -> bad))
-                 | S n8 ->
-                   (match n8 with
+                 | S n9 ->
+                   (match n9 with
                     | O ->
                       (match args with
                        | [] -> bad
@@ -3520,8 +3851,8 @@ let dispatch id args =
                                             | _ -> bad))
                                       | _ -> bad))))
                           | _ -> bad))
-                    | S n9 ->
-                      (match n9 with
+                    | S n10 ->
+                      (match n10 with
                        | O ->
                          (match args with
                           | [] -> bad
@@ -3577,8 +3908,8 @@ let dispatch id args =
                                                | _ -> bad))
                                          | _ -> bad))))
                              | _ -> bad))
-                       | S n10 ->
-                         (match n10 with
+                       | S n11 ->
+                         (match n11 with
                           | O ->
                             (match args with
                              | [] -> bad
@@ -3636,8 +3967,8 @@ let dispatch id args =
                                                   | _ -> bad))
                                             | _ -> bad))))
                                 | _ -> bad))
-                          | S n11 ->
-                            (match n11 with
+                          | S n12 ->
+                            (match n12 with
                              | O ->
                                (match args with
                                 | [] -> bad
@@ -3702,8 +4033,8 @@ let dispatch id args =
                                                      | _ -> bad))
                                                | _ -> bad))))
                                    | _ -> bad))
-                             | S n12 ->
-                               (match n12 with
+                             | S n13 ->
+                               (match n13 with
                                 | O ->
                                   (match args with
                                    | [] -> bad
@@ -3743,8 +4074,8 @@ let dispatch id args =
                                                         | _ -> bad))
                                                   | _ -> bad))
                                             | _ -> bad))))
-                                | S n13 ->
-                                  (match n13 with
+                                | S n14 ->
+                                  (match n14 with
                                    | O ->
                                      (match args with
                                       | [] -> bad
@@ -3795,8 +4126,8 @@ let dispatch id args =
                                                            | _ -> bad))
                                                      | _ -> bad))
                                                | _ -> bad))))
-                                   | S n14 ->
-                                     (match n14 with
+                                   | S n15 ->
+                                     (match n15 with
                                       | O ->
                                         (match args with
                                          | [] -> bad
@@ -3855,8 +4186,8 @@ let dispatch id args =
                                                               | _ -> bad))
                                                         | _ -> bad))))
                                             | _ -> bad))
-                                      | S n15 ->
-                                        (match n15 with
+                                      | S n16 ->
+                                        (match n16 with
                                          | O ->
                                            (match args with
                                             | [] -> bad
@@ -3920,8 +4251,8 @@ let dispatch id args =
                                                                  | _ -> bad))
                                                            | _ -> bad))
                                                      | _ -> bad))))
-                                         | S n16 ->
-                                           (match n16 with
+                                         | S n17 ->
+                                           (match n17 with
                                             | O ->
                                               (match args with
                                                | [] -> bad
@@ -3981,23 +4312,23 @@ let dispatch id args =
                                                                     | _ -> bad))
                                                               | _ -> bad))
                                                         | _ -> bad))))
-                                            | S n17 ->
-                                              (match n17 with
+                                            | S n18 ->
+                                              (match n18 with
                                                | O -> bad
-                                               | S n18 ->
-                                                 (match n18 with
+                                               | S n19 ->
+                                                 (match n19 with
                                                   | O -> bad
-                                                  | S n19 ->
-                                                    (match n19 with
+                                                  | S n20 ->
+                                                    (match n20 with
                                                      | O -> bad
-                                                     | S n20 ->
-                                                       (match n20 with
+                                                     | S n21 ->
+                                                       (match n21 with
                                                         | O -> bad
-                                                        | S n21 ->
-                                                          (match n21 with
+                                                        | S n22 ->
+                                                          (match n22 with
                                                            | O -> bad
-                                                           | S n22 ->
-                                                             (match n22 with
+                                                           | S n23 ->
+                                                             (match n23 with
                                                               | O ->
                                                                 (match args with
                                                                  | [] -> bad
@@ -4043,8 +4374,8 @@ let dispatch id args =
                                                                     bad)
                                                                     | _ :: _ ->
                                                                     bad)))))
-                                                              | S n23 ->
-                                                                (match n23 with
+                                                              | S n24 ->
+                                                                (match n24 with
                                                                  | O ->
                                                                    (match args with
                                                                     | [] ->
@@ -4111,8 +4442,8 @@ let dispatch id args =
                                                                     bad)
                                                                     | _ :: _ ->
                                                                     bad)))))))
-                                                                 | S n24 ->
-                                                                   (match n24 with
+                                                                 | S n25 ->
+                                                                   (match n25 with
                                                                     | O ->
                                                                     (match args with
                                                                     | [] ->
@@ -4158,8 +4489,8 @@ let dispatch id args =
                                                                     bad)
                                                                     | _ :: _ ->
                                                                     bad)))))))
-                                                                    | S n25 ->
-                                                                    (match n25 with
+                                                                    | S n26 ->
+                                                                    (match n26 with
                                                                     | O ->
                                                                     (match args with
                                                                     | [] ->
@@ -4199,8 +4530,8 @@ let dispatch id args =
                                                                     bad)
                                                                     | _ :: _ ->
                                                                     bad))))
-                                                                    | S n26 ->
-                                                                    (match n26 with
+                                                                    | S n27 ->
+                                                                    (match n27 with
                                                                     | O ->
                                                                     (match args with
                                                                     | [] ->
@@ -4239,8 +4570,8 @@ let dispatch id args =
                                                                     bad)
                                                                     | _ :: _ ->
                                                                     bad))))
-                                                                    | S n27 ->
-                                                                    (match n27 with
+                                                                    | S n28 ->
+                                                                    (match n28 with
                                                                     | O ->
                                                                     (match args with
                                                                     | [] ->
@@ -4277,8 +4608,8 @@ let dispatch id args =
                                                                     | _ :: _ ->
                                                                     bad)
                                                                     | _ -> bad))))
-                                                                    | S n28 ->
-                                                                    (match n28 with
+                                                                    | S n29 ->
+                                                                    (match n29 with
                                                                     | O ->
                                                                     (match args with
                                                                     | [] ->
@@ -4315,8 +4646,8 @@ let dispatch id args =
                                                                     | _ :: _ ->
                                                                     bad)
                                                                     | _ -> bad))))
-                                                                    | S n29 ->
-                                                                    (match n29 with
+                                                                    | S n30 ->
+                                                                    (match n30 with
                                                                     | O ->
                                                                     (match args with
                                                                     | [] ->
@@ -4343,8 +4674,8 @@ let dispatch id args =
                                                                     bad)
                                                                     | _ :: _ ->
                                                                     bad)))
-                                                                    | S n30 ->
-                                                                    (match n30 with
+                                                                    | S n31 ->
+                                                                    (match n31 with
                                                                     | O ->
                                                                     (match args with
                                                                     | [] ->
@@ -4393,8 +4724,8 @@ let dispatch id args =
                                                                     bad)
                                                                     | _ :: _ ->
                                                                     bad)))))
-                                                                    | S n31 ->
-                                                                    (match n31 with
+                                                                    | S n32 ->
+                                                                    (match n32 with
                                                                     | O ->
                                                                     (match args with
                                                                     | [] ->
@@ -4442,8 +4773,8 @@ let dispatch id args =
                                                                     bad)
                                                                     | _ :: _ ->
                                                                     bad)))))
-                                                                    | S n32 ->
-                                                                    (match n32 with
+                                                                    | S n33 ->
+                                                                    (match n33 with
                                                                     | O ->
                                                                     (match args with
                                                                     | [] ->
@@ -4489,8 +4820,8 @@ let dispatch id args =
                                                                     | _ :: _ ->
                                                                     bad)
                                                                     | _ -> bad)))))
-                                                                    | S n33 ->
-                                                                    (match n33 with
+                                                                    | S n34 ->
+                                                                    (match n34 with
                                                                     | O ->
                                                                     (match args with
                                                                     | [] ->
@@ -4536,8 +4867,8 @@ let dispatch id args =
                                                                     | _ :: _ ->
                                                                     bad)
                                                                     | _ -> bad)))))
-                                                                    | S n34 ->
-                                                                    (match n34 with
+                                                                    | S n35 ->
+                                                                    (match n35 with
                                                                     | O ->
                                                                     (match args with
                                                                     | [] ->
@@ -4574,8 +4905,8 @@ let dispatch id args =
                                                                     bad)
                                                                     | _ :: _ ->
                                                                     bad))))
-                                                                    | S n35 ->
-                                                                    (match n35 with
+                                                                    | S n36 ->
+                                                                    (match n36 with
                                                                     | O ->
                                                                     (match args with
                                                                     | [] ->
@@ -4613,8 +4944,8 @@ let dispatch id args =
                                                                     bad)
                                                                     | _ :: _ ->
                                                                     bad)))))
-                                                                    | S n36 ->
-                                                                    (match n36 with
+                                                                    | S n37 ->
+                                                                    (match n37 with
                                                                     | O ->
                                                                     (match args with
                                                                     | [] ->
@@ -4660,8 +4991,8 @@ let dispatch id args =
                                                                     | _ :: _ ->
                                                                     bad)
                                                                     | _ -> bad))))))
-                                                                    | S n37 ->
-                                                                    (match n37 with
+                                                                    | S n38 ->
+                                                                    (match n38 with
                                                                     | O ->
                                                                     (match args with
                                                                     | [] ->
@@ -4695,9 +5026,6 @@ let dispatch id args =
                                                                     | _ :: _ ->
                                                                     bad)
                                                                     | _ -> bad)))))
-                                                                    | S n38 ->
-                                                                    (match n38 with
-                                                                    | O -> bad
                                                                     | S n39 ->
                                                                     (match n39 with
                                                                     | O -> bad
@@ -4709,6 +5037,9 @@ let dispatch id args =
                                                                     | O -> bad
                                                                     | S n42 ->
                                                                     (match n42 with
+                                                                    | O -> bad
+                                                                    | S n43 ->
+                                                                    (match n43 with
                                                                     | O ->
                                                                     (match args with
                                                                     | [] ->
@@ -4726,8 +5057,8 @@ let dispatch id args =
                                                                     bad)
                                                                     | _ :: _ ->
                                                                     bad))
-                                                                    | S n43 ->
-                                                                    (match n43 with
+                                                                    | S n44 ->
+                                                                    (match n44 with
                                                                     | O ->
                                                                     (match args with
                                                                     | [] ->
@@ -4747,8 +5078,8 @@ let dispatch id args =
                                                                     bad)
                                                                     | _ :: _ ->
                                                                     bad))
-                                                                    | S n44 ->
-                                                                    (match n44 with
+                                                                    | S n45 ->
+                                                                    (match n45 with
                                                                     | O ->
                                                                     (match args with
                                                                     | [] ->
@@ -4780,8 +5111,8 @@ let dispatch id args =
                                                                     bad)
                                                                     | _ -> bad))
                                                                     | _ -> bad)))
-                                                                    | S n45 ->
-                                                                    (match n45 with
+                                                                    | S n46 ->
+                                                                    (match n46 with
                                                                     | O ->
                                                                     (match args with
                                                                     | [] ->
@@ -4799,9 +5130,6 @@ let dispatch id args =
                                                                     bad)
                                                                     | _ :: _ ->
                                                                     bad))
-                                                                    | S n46 ->
-                                                                    (match n46 with
-                                                                    | O -> bad
                                                                     | S n47 ->
                                                                     (match n47 with
                                                                     | O -> bad
@@ -4819,6 +5147,9 @@ let dispatch id args =
                                                                     | O -> bad
                                                                     | S n52 ->
                                                                     (match n52 with
+                                                                    | O -> bad
+                                                                    | S n53 ->
+                                                                    (match n53 with
                                                                     | O ->
                                                                     (match args with
                                                                     | [] ->
@@ -4867,8 +5198,8 @@ let dispatch id args =
                                                                     | _ -> bad))
                                                                     | _ -> bad))
                                                                     | _ -> bad))
-                                                                    | S n53 ->
-                                                                    (match n53 with
+                                                                    | S n54 ->
+                                                                    (match n54 with
                                                                     | O ->
                                                                     (match args with
                                                                     | [] ->
@@ -4925,8 +5256,8 @@ let dispatch id args =
                                                                     | _ -> bad))
                                                                     | _ -> bad))
                                                                     | _ -> bad))
-                                                                    | S n54 ->
-                                                                    (match n54 with
+                                                                    | S n55 ->
+                                                                    (match n55 with
                                                                     | O ->
                                                                     (match args with
                                                                     | [] ->
@@ -4983,8 +5314,8 @@ let dispatch id args =
                                                                     | _ -> bad))
                                                                     | _ -> bad))
                                                                     | _ -> bad))
-                                                                    | S n55 ->
-                                                                    (match n55 with
+                                                                    | S n56 ->
+                                                                    (match n56 with
                                                                     | O ->
                                                                     (match args with
                                                                     | [] ->
@@ -5042,8 +5373,8 @@ let dispatch id args =
                                                                     | _ -> bad))
                                                                     | _ -> bad))
                                                                     | _ -> bad))
-                                                                    | S n56 ->
-                                                                    (match n56 with
+                                                                    | S n57 ->
+                                                                    (match n57 with
                                                                     | O ->
                                                                     (match args with
                                                                     | [] ->
@@ -5104,8 +5435,8 @@ let dispatch id args =
                                                                     | _ -> bad))
                                                                     | _ -> bad))
                                                                     | _ -> bad))
-                                                                    | S n57 ->
-                                                                    (match n57 with
+                                                                    | S n58 ->
+                                                                    (match n58 with
                                                                     | O ->
                                                                     (match args with
                                                                     | [] ->
@@ -5173,8 +5504,8 @@ let dispatch id args =
                                                                     | _ -> bad))
                                                                     | _ -> bad))
                                                                     | _ -> bad))
-                                                                    | S n58 ->
-                                                                    (match n58 with
+                                                                    | S n59 ->
+                                                                    (match n59 with
                                                                     | O ->
                                                                     (match args with
                                                                     | [] ->
@@ -5242,9 +5573,6 @@ let dispatch id args =
                                                                     | _ -> bad))
                                                                     | _ -> bad))
                                                                     | _ -> bad))
-                                                                    | S n59 ->
-                                                                    (match n59 with
-                                                                    | O -> bad
                                                                     | S n60 ->
                                                                     (match n60 with
                                                                     | O -> bad
@@ -5253,6 +5581,9 @@ let dispatch id args =
                                                                     | O -> bad
                                                                     | S n62 ->
                                                                     (match n62 with
+                                                                    | O -> bad
+                                                                    | S n63 ->
+                                                                    (match n63 with
                                                                     | O ->
                                                                     (match args with
                                                                     | [] ->
@@ -5302,8 +5633,8 @@ let dispatch id args =
                                                                     | _ -> bad))
                                                                     | _ -> bad))
                                                                     | _ -> bad))
-                                                                    | S n63 ->
-                                                                    (match n63 with
+                                                                    | S n64 ->
+                                                                    (match n64 with
                                                                     | O ->
                                                                     (match args with
                                                                     | [] ->
@@ -5361,8 +5692,8 @@ let dispatch id args =
                                                                     | _ -> bad))
                                                                     | _ -> bad))
                                                                     | _ -> bad))
-                                                                    | S n64 ->
-                                                                    (match n64 with
+                                                                    | S n65 ->
+                                                                    (match n65 with
                                                                     | O ->
                                                                     (match args with
                                                                     | [] ->
@@ -5420,8 +5751,8 @@ let dispatch id args =
                                                                     | _ -> bad))
                                                                     | _ -> bad))
                                                                     | _ -> bad))
-                                                                    | S n65 ->
-                                                                    (match n65 with
+                                                                    | S n66 ->
+                                                                    (match n66 with
                                                                     | O ->
                                                                     (match args with
                                                                     | [] ->
@@ -5479,8 +5810,8 @@ let dispatch id args =
                                                                     | _ -> bad))
                                                                     | _ -> bad))
                                                                     | _ -> bad))
-                                                                    | S n66 ->
-                                                                    (match n66 with
+                                                                    | S n67 ->
+                                                                    (match n67 with
                                                                     | O ->
                                                                     (match args with
                                                                     | [] ->
@@ -5541,8 +5872,8 @@ let dispatch id args =
                                                                     | _ -> bad))
                                                                     | _ -> bad))
                                                                     | _ -> bad))
-                                                                    | S n67 ->
-                                                                    (match n67 with
+                                                                    | S n68 ->
+                                                                    (match n68 with
                                                                     | O ->
                                                                     (match args with
                                                                     | [] ->
@@ -5610,8 +5941,8 @@ let dispatch id args =
                                                                     | _ -> bad))
                                                                     | _ -> bad))
                                                                     | _ -> bad))
-                                                                    | S n68 ->
-                                                                    (match n68 with
+                                                                    | S n69 ->
+                                                                    (match n69 with
                                                                     | O ->
                                                                     (match args with
                                                                     | [] ->
@@ -5679,8 +6010,8 @@ let dispatch id args =
                                                                     | _ -> bad))
                                                                     | _ -> bad))
                                                                     | _ -> bad))
-                                                                    | S n69 ->
-                                                                    (match n69 with
+                                                                    | S n70 ->
+                                                                    (match n70 with
                                                                     | O ->
                                                                     (match args with
                                                                     | [] ->
@@ -5740,8 +6071,8 @@ let dispatch id args =
                                                                     | _ -> bad))
                                                                     | _ -> bad))
                                                                     | _ -> bad))
-                                                                    | S n70 ->
-                                                                    (match n70 with
+                                                                    | S n71 ->
+                                                                    (match n71 with
                                                                     | O ->
                                                                     (match args with
                                                                     | [] ->
@@ -5808,8 +6139,8 @@ let dispatch id args =
                                                                     | _ -> bad))
                                                                     | _ -> bad))
                                                                     | _ -> bad))
-                                                                    | S n71 ->
-                                                                    (match n71 with
+                                                                    | S n72 ->
+                                                                    (match n72 with
                                                                     | O ->
                                                                     (match args with
                                                                     | [] ->
@@ -5876,8 +6207,8 @@ let dispatch id args =
                                                                     | _ -> bad))
                                                                     | _ -> bad))
                                                                     | _ -> bad))
-                                                                    | S n72 ->
-                                                                    (match n72 with
+                                                                    | S n73 ->
+                                                                    (match n73 with
                                                                     | O ->
                                                                     (match args with
                                                                     | [] ->
@@ -5939,8 +6270,8 @@ let dispatch id args =
                                                                     | _ -> bad))
                                                                     | _ -> bad))
                                                                     | _ -> bad))
-                                                                    | S n73 ->
-                                                                    (match n73 with
+                                                                    | S n74 ->
+                                                                    (match n74 with
                                                                     | O ->
                                                                     (match args with
                                                                     | [] ->
@@ -6006,8 +6337,8 @@ let dispatch id args =
                                                                     | _ -> bad))
                                                                     | _ -> bad))
                                                                     | _ -> bad))
-                                                                    | S n74 ->
-                                                                    (match n74 with
+                                                                    | S n75 ->
+                                                                    (match n75 with
                                                                     | O ->
                                                                     (match args with
                                                                     | [] ->
@@ -6073,8 +6404,8 @@ let dispatch id args =
                                                                     | _ -> bad))
                                                                     | _ -> bad))
                                                                     | _ -> bad))
-                                                                    | S n75 ->
-                                                                    (match n75 with
+                                                                    | S n76 ->
+                                                                    (match n76 with
                                                                     | O ->
                                                                     (match args with
                                                                     | [] ->
@@ -6132,8 +6463,8 @@ let dispatch id args =
                                                                     | _ -> bad))
                                                                     | _ -> bad))
                                                                     | _ -> bad))
-                                                                    | S n76 ->
-                                                                    (match n76 with
+                                                                    | S n77 ->
+                                                                    (match n77 with
                                                                     | O ->
                                                                     (match args with
                                                                     | [] ->
@@ -6199,8 +6530,8 @@ let dispatch id args =
                                                                     | _ -> bad))
                                                                     | _ -> bad))
                                                                     | _ -> bad))
-                                                                    | S n77 ->
-                                                                    (match n77 with
+                                                                    | S n78 ->
+                                                                    (match n78 with
                                                                     | O ->
                                                                     (match args with
                                                                     | [] ->
@@ -6265,9 +6596,6 @@ let dispatch id args =
                                                                     | _ -> bad))
                                                                     | _ -> bad))
                                                                     | _ -> bad))
-                                                                    | S n78 ->
-                                                                    (match n78 with
-                                                                    | O -> bad
                                                                     | S n79 ->
                                                                     (match n79 with
                                                                     | O -> bad
@@ -6279,6 +6607,9 @@ let dispatch id args =
                                                                     | O -> bad
                                                                     | S n82 ->
                                                                     (match n82 with
+                                                                    | O -> bad
+                                                                    | S n83 ->
+                                                                    (match n83 with
                                                                     | O ->
                                                                     (match args with
                                                                     | [] ->
@@ -6296,8 +6627,8 @@ let dispatch id args =
                                                                     bad)
                                                                     | _ :: _ ->
                                                                     bad))
-                                                                    | S n83 ->
-                                                                    (match n83 with
+                                                                    | S n84 ->
+                                                                    (match n84 with
                                                                     | O ->
                                                                     (match args with
                                                                     | [] ->
@@ -6330,8 +6661,8 @@ let dispatch id args =
                                                                     bad))
                                                                     | _ -> bad))
                                                                     | _ -> bad))
-                                                                    | S n84 ->
-                                                                    (match n84 with
+                                                                    | S n85 ->
+                                                                    (match n85 with
                                                                     | O ->
                                                                     (match args with
                                                                     | [] ->
@@ -6358,8 +6689,244 @@ let dispatch id args =
                                                                     bad)
                                                                     | _ :: _ ->
                                                                     bad)))
+                                                                    | S n86 ->
+                                                                    (match n86 with
+                                                                    | O -> bad
+                                                                    | S n87 ->
+                                                                    (match n87 with
+                                                                    | O -> bad
+                                                                    | S n88 ->
+                                                                    (match n88 with
+                                                                    | O -> bad
+                                                                    | S n89 ->
+                                                                    (match n89 with
+                                                                    | O -> bad
+                                                                    | S n90 ->
+                                                                    (match n90 with
+                                                                    | O -> bad
+                                                                    | S n91 ->
+                                                                    (match n91 with
+                                                                    | O -> bad
+                                                                    | S n92 ->
+                                                                    (match n92 with
+                                                                    | O -> bad
+                                                                    | S n93 ->
+                                                                    (match n93 with
+                                                                    | O ->
+                                                                    (match args with
+                                                                    | [] ->
+                                                                    bad
+                                                                    | sep :: l ->
+                                                                    (match l with
+                                                                    | [] ->
+                                                                    bad
+                                                                    | trains :: l0 ->
+                                                                    (match l0 with
+                                                                    | [] ->
+                                                                    (match 
+                                                                    asNs sep with
+                                                                    | Some sp ->
+                                                                    (match 
+                                                                    asStrsL
+                                                                    trains with
+                                                                    | Some ts ->
+                                                                    VL
+                                                                    (map
+                                                                    encStr
+                                                                    (save_lines
+                                                                    sp ts))
+                                                                    | None ->
+                                                                    bad)
+                                                                    | None ->
+                                                                    bad)
+                                                                    | _ :: _ ->
+                                                                    bad)))
+                                                                    | S n94 ->
+                                                                    (match n94 with
+                                                                    | O ->
+                                                                    (match args with
+                                                                    | [] ->
+                                                                    bad
+                                                                    | sep :: l ->
+                                                                    (match l with
+                                                                    | [] ->
+                                                                    bad
+                                                                    | comment :: l0 ->
+                                                                    (match l0 with
+                                                                    | [] ->
+                                                                    bad
+                                                                    | v :: l1 ->
+                                                                    (match v with
+                                                                    | VB ie ->
+                                                                    (match l1 with
+                                                                    | [] ->
+                                                                    bad
+                                                                    | lines :: l2 ->
+                                                                    (match l2 with
+                                                                    | [] ->
+                                                                    (match 
+                                                                    asNs sep with
+                                                                    | Some sp ->
+                                                                    (match 
+                                                                    asNs
+                                                                    comment with
+                                                                    | Some cm ->
+                                                                    (match 
+                                                                    asStrs
+                                                                    lines with
+                                                                    | Some ls ->
+                                                                    VL
+                                                                    (map
+                                                                    (fun t ->
+                                                                    VL
+                                                                    (map
+                                                                    encStr t))
+                                                                    (load_lines
+                                                                    sp cm ie
+                                                                    ls))
+                                                                    | None ->
+                                                                    bad)
+                                                                    | None ->
+                                                                    bad)
+                                                                    | None ->
+                                                                    bad)
+                                                                    | _ :: _ ->
+                                                                    bad))
+                                                                    | _ -> bad))))
+                                                                    | S n95 ->
+                                                                    (match n95 with
+                                                                    | O ->
+                                                                    (match args with
+                                                                    | [] ->
+                                                                    bad
+                                                                    | v :: l ->
+                                                                    (match v with
+                                                                    | VQ ts ->
+                                                                    (match l with
+                                                                    | [] ->
+                                                                    bad
+                                                                    | v0 :: l0 ->
+                                                                    (match v0 with
+                                                                    | VQ te ->
+                                                                    (match l0 with
+                                                                    | [] ->
+                                                                    bad
+                                                                    | v1 :: l1 ->
+                                                                    (match v1 with
+                                                                    | VN n ->
+                                                                    (match l1 with
+                                                                    | [] ->
+                                                                    bad
+                                                                    | xs :: l2 ->
+                                                                    (match l2 with
+                                                                    | [] ->
+                                                                    (match 
+                                                                    asQs xs with
+                                                                    | Some x ->
+                                                                    VL
+                                                                    ((encQs
+                                                                    (psth_edges
+                                                                    o ts te n)) :: (
+                                                                    (encQs
+                                                                    (psth_counts
+                                                                    o ts te n
+                                                                    x)) :: []))
+                                                                    | None ->
+                                                                    bad)
+                                                                    | _ :: _ ->
+                                                                    bad))
+                                                                    | _ -> bad))
+                                                                    | _ -> bad))
+                                                                    | _ -> bad))
+                                                                    | S n ->
+                                                                    (match n with
+                                                                    | O ->
+                                                                    (match args with
+                                                                    | [] ->
+                                                                    bad
+                                                                    | v :: l ->
+                                                                    (match v with
+                                                                    | VQ t0 ->
+                                                                    (match l with
+                                                                    | [] ->
+                                                                    bad
+                                                                    | v0 :: l0 ->
+                                                                    (match v0 with
+                                                                    | VQ t1 ->
+                                                                    (match l0 with
+                                                                    | [] ->
+                                                                    bad
+                                                                    | draws :: l1 ->
+                                                                    (match l1 with
+                                                                    | [] ->
+                                                                    (match 
+                                                                    asQs draws with
+                                                                    | Some d ->
+                                                                    encQs
+                                                                    (poisson_spikes
+                                                                    o t0 t1 d)
+                                                                    | None ->
+                                                                    bad)
+                                                                    | _ :: _ ->
+                                                                    bad))
+                                                                    | _ -> bad))
+                                                                    | _ -> bad))
+                                                                    | S n96 ->
+                                                                    (match n96 with
+                                                                    | O ->
+                                                                    (match args with
+                                                                    | [] ->
+                                                                    bad
+                                                                    | bases :: l ->
+                                                                    (match l with
+                                                                    | [] ->
+                                                                    bad
+                                                                    | ops :: l0 ->
+                                                                    (match l0 with
+                                                                    | [] ->
+                                                                    (match 
+                                                                    asPwcs
+                                                                    bases with
+                                                                    | Some bs ->
+                                                                    (match 
+                                                                    asOps ops with
+                                                                    | Some os ->
+                                                                    let st =
+                                                                    run o
+                                                                    (app
+                                                                    (map
+                                                                    (fun b ->
+                                                                    ONew
+                                                                    ((fst b),
+                                                                    (snd b)))
+                                                                    bs) os)
+                                                                    empty_state
+                                                                    in
+                                                                    VL ((VL
+                                                                    (map
+                                                                    (fun k ->
+                                                                    match 
+                                                                    denote st
+                                                                    k with
+                                                                    | Some f ->
+                                                                    encPwc f
+                                                                    | None ->
+                                                                    VNone)
+                                                                    (seq O
+                                                                    (length
+                                                                    st.st_objs)))) :: ((VL
+                                                                    (map
+                                                                    (fun x ->
+                                                                    VE x)
+                                                                    st.st_errs)) :: []))
+                                                                    | None ->
+                                                                    bad)
+                                                                    | None ->
+                                                                    bad)
+                                                                    | _ :: _ ->
+                                                                    bad)))
                                                                     | S _ ->
-                                                                    bad))))))))))))))))))))))))))))))))))))))))))))))))))))))))))))))))))))))))))))))))))
+                                                                    bad))))))))))))))))))))))))))))))))))))))))))))))))))))))))))))))))))))))))))))))))))))))))))))))
 
 (** val eff : 'a1 -> 'a1 -> 'a1 list -> 'a1 list **)
 
